@@ -18,7 +18,10 @@ Definition module_names : bool :=
   forallb (String.eqb wat_module)
     ([header_define_module; rust_module; trampoline_module; trampoline_module_from_source; provider_module] ++ header_modules ++ trampoline_emits_modules)
   && forallb (fun '(m, _) => String.eqb m wat_module) trampoline_memory_imports
-  && String.prefix "shopify_function_v" wat_module.
+  && String.prefix "shopify_function_v" wat_module
+  (* of all the spellings with the version prefix that were tried on the real tool, exactly the public name is accepted *)
+  && forallb (fun '(m, acc) => Bool.eqb acc (String.eqb m wat_module)) trampoline_module_probes
+  && existsb (fun '(m, acc) => acc) trampoline_module_probes && Nat.leb 3 (List.length trampoline_module_probes).
 
 (** 3. every low-level import the trampoline emits exists in the provider with the same Wasm signature. *)
 Definition emitted_imports_exist : bool := table_sub trampoline_emits provider_exports && nodup_b (names provider_exports).
